@@ -82,6 +82,45 @@ Theorem C12_compile_adf_sem : forall V (cval : cst -> option V) defs actuals,
 Proof. intros V cval. exact (compile_adf_sem cval). Qed.
 Print Assumptions C12_compile_adf_sem.
 
+(* renameArguments with fresh, pairwise distinct new names: the call succeeds; pset.arguments is renamed
+   pointwise; every argument Terminal's value is its new name; the argument terminals are registered under
+   their new names; every other entry of pset.mapping is untouched *)
+Theorem C12_rename_fresh : forall kargs ps0,
+  NoDup (ps_arguments ps0) -> NoDup (map snd kargs) ->
+  (forall n, In n (map snd kargs) -> ~ In n (ps_arguments ps0)) ->
+  ps_argvalue ps0 = ps_arguments ps0 -> arg_entries ps0 ->
+  exists ps', rename kargs ps0 = Some ps' /\
+    ps_arguments ps' = map (new_name kargs) (ps_arguments ps0) /\
+    ps_argvalue ps' = ps_arguments ps' /\
+    NoDup (ps_arguments ps') /\
+    arg_entries ps' /\
+    (forall k, ~ In k (ps_arguments ps0) -> ~ In k (map snd kargs) ->
+               dget k (ps_mapping ps') = dget k (ps_mapping ps0)).
+Proof. exact rename_fresh. Qed.
+Print Assumptions C12_rename_fresh.
+
+(* "(possibly renamed) arguments": after such a renaming the same tree object compiles to the same function
+   of the actual arguments (argument terminal j still denotes the j-th actual argument) *)
+Theorem C12_rename_same_function : forall V (cval : cst -> option V) kargs ps0 ps' ctx t tr actuals,
+  parse t = Some tr -> pset_ok ps0 -> arg_entries ps0 ->
+  all_nodes (node_ok ps0) tr -> all_nodes (name_fresh (ps_arguments ps0)) tr ->
+  NoDup (map snd kargs) -> (forall n, In n (map snd kargs) -> ~ In n (ps_arguments ps0)) ->
+  (forall n, In n (map snd kargs) -> is_ident n = true /\ all_nodes (avoids n) tr) ->
+  rename kargs ps0 = Some ps' ->
+  pset_ok ps' /\
+  run_compiled cval (compile cval ps' ctx t) actuals = run_compiled cval (compile cval ps0 ctx t) actuals.
+Proof. intros V cval. exact (rename_same_function cval). Qed.
+Print Assumptions C12_rename_same_function.
+
+(* outside the freshness hypothesis the code does misbehave (recorded, not part of the claim): swapping the
+   names of two arguments leaves both pset.arguments entries swapped but only one terminal reachable, so
+   ARG0 now denotes the *second* actual argument *)
+Example C12_rename_collision :
+  let ps := mkpset ["ARG0"; "ARG1"] ["ARG0"; "ARG1"] [("ARG0", NArg 0 0); ("ARG1", NArg 1 0)] in
+  rename [("ARG0", "ARG1"); ("ARG1", "ARG0")] ps =
+  Some (mkpset ["ARG1"; "ARG0"] ["ARG0"; "ARG1"] [("ARG0", NArg 0 0)]).
+Proof. reflexivity. Qed.
+
 (* integer (also negative) and boolean constants always meet the printing hypothesis *)
 Theorem C12_int_bool_constants_ok : forall ps r,
   (forall z, node_ok ps (NConst (CInt z) r)) /\ (forall b, node_ok ps (NConst (CBool b) r)).
